@@ -11,8 +11,9 @@ TB = ["Coq 8.16.1 kernel (vm_compute; no native_compute)", "hand-written models 
 def gen_cases(ctx, n_graphs, cfgs_per_graph):
     rng = ctx.rng
     out = []
-    for _ in range(n_graphs):
-        gd = G.gen_graph(rng, cap=ctx.budget(400, 3000))
+    for gi in range(n_graphs):
+        # every 6th graph is directed with >= 36 thin layers (long runs of the "all seen layers" branch of the BFS)
+        gd = G.gen_deep_directed(rng, ctx.budget(1500, 3000), min_layers=36) if gi % 6 == 5 else G.gen_graph(rng, cap=ctx.budget(400, 3000))
         layers, dist = G.ref_bfs(gd, [gd["central"]])
         starts = G.gen_starts(rng, gd, dist)
         for _ in range(cfgs_per_graph):
